@@ -3,6 +3,19 @@ import os, time, json
 import vlib
 
 
+def formats_block():
+    """string / number schemas with a format: every (type, format, spelling) state of MC_C10f goes through
+    the real add_type; Trace_C10f judges the chosen type against the documented table"""
+    cases, st, _ = vlib.run_mc("MC_C10f.tla", "C10f.cfg", "C10f", workers=2, timeout=600)
+    cpath = os.path.join(vlib.BUILD, "C10f.cases.ndjson")
+    epath = os.path.join(vlib.BUILD, "C10f.events.ndjson")
+    vlib.write_ndjson(cpath, cases)
+    vlib.sh([vlib.VDRIVE_BIN, "c10f", cpath, epath], timeout=600)
+    events = vlib.read_ndjson(epath)
+    bad, ts = vlib.run_trace("Trace_C10f.tla", "Trace_C10f.cfg", events, "C10f", shards=1, timeout=600)
+    return bad, {"cases": len(cases), "mc": st, "trace": ts}
+
+
 def run(tier, seed, replay=None):
     t0 = time.time()
     vlib.build_vdrive()
@@ -22,6 +35,11 @@ def run(tier, seed, replay=None):
         raise vlib.ToolError("vdrive produced %d events for %d cases" % (len(events), len(cases)))
     bad, tstats = vlib.run_trace("Trace_C10.tla", "Trace_C10.cfg", events, "C10", shards=14,
                                  timeout=3000 if tier == "thorough" else 900)
+    # the non-integer half: string and number formats (MC_C10f / Trace_C10f)
+    fbad, fstats = formats_block() if replay is None else ([], {})
+    for b in fbad:
+        b["fmt_block"] = True
+    bad = bad + fbad
     mfind = {}
     for c in cases:
         mfind[c["mdiag"]] = mfind.get(c["mdiag"], 0) + 1
@@ -30,6 +48,8 @@ def run(tier, seed, replay=None):
                 != (e["res"] if e["res"] != "panic" else "err", e["ty"] if e["res"] == "ok" else ""))
 
     def replay_of(v):
+        if v.get("fmt_block"):
+            return {"property": "C10", "diagnosis": v, "how": "add_type of {type: <c.ty>, format: <c.fmt>} in spelling <c.spelling>"}
         i = v["case"] - 1
         return {"property": "C10", "diagnosis": v, "case_line": cases[i], "event": events[i],
                 "how": "bin/check C10 --replay <this file>",
@@ -41,7 +61,7 @@ def run(tier, seed, replay=None):
          "rule": "every integer schema reachable in MC_C10 (format x bound-keyword sets x lattice points x multipleOf x default); "
                  "each distinct TLC state is one schema; a case is non-trivial if it has at least one keyword",
          "distinct_nontrivial": sum(1 for c in cases if c["s"]),
-         "model_findings": mfind, "model_drift": drift},
+         "model_findings": mfind, "model_drift": drift, "string_and_number_formats": fstats},
         ["JSON Schema draft-07 semantics of minimum/maximum/exclusive*/multipleOf as transcribed in IntSchema.tla",
          "recognised integer formats are read as ranges (C02/C10 wording)",
          "obligations only for probes inside i64 or inside a recognised format's range (DESIGN A9)",
